@@ -14,11 +14,14 @@ func verifPathByte(name string) byte {
 	return c
 }
 
-// verifMatches builds 11 capture groups (index 0 is the whole match), each 1 or 2 bytes of the path alphabet.
+// verifMatches builds 11 capture groups (index 0 is the whole match), each 1 or 2 bytes of the path alphabet; groups 2 and 10 may be empty.
 func verifMatches() []string {
 	m := make([]string, 12)
 	for i := range m {
 		n := 1 + i%2
+		if (i == 2 || i == 10) && vnd.Bool("emptyGroup") { // an optional group that did not take part in the match
+			n = 0
+		}
 		b := make([]byte, n)
 		for j := range b {
 			b[j] = verifPathByte("g")
